@@ -19,7 +19,7 @@ func init() {
 		"through a real MultipleServersDiscovery into a real XClient (fake RPC clients; also 4..16 XClients sharing one discovery with long unordered lists), published back-to-back and with pauses, with fresh KVPair objects or with the publisher's own objects edited in place and republished, under GOMAXPROCS in {1,2,16}, "+
 		"for every selection strategy in {random, round-robin, weighted, hash} and client group settings; after quiescence the set of servers that actually "+
 		"receive calls must equal filter(last published list); the filter itself is compared with the Lean model on grammar-generated metadata; "+
-		"plus client churn: 250-400 XClients on one discovery, a few of them closed concurrently with every published update, every client still open must switch to it (each round replayed on the Lean hub model); "+
+		"plus clients whose selector is installed after construction (SelectByUser + SetSelector, Closest + ConfigGeoSelector), before or after an update arrived; plus client churn: 250-400 XClients on one discovery, a few of them closed concurrently with every published update, every client still open must switch to it (each round replayed on the Lean hub model); "+
 		"non-trivial = at least two updates with different server sets; distinct = distinct input line",
 		runC14)
 }
@@ -333,6 +333,7 @@ func runC14(o *Out, r *rand.Rand) {
 	c14Filter(o, r)
 	c14Shared(o, r)
 	c14Churn(o, r)
+	c14LateSelector(o, r)
 	n := 40
 	if thorough() {
 		n = 400
@@ -526,4 +527,165 @@ func c14Converge(o *Out, r *rand.Rand, mode client.SelectMode, procs int) {
 	if len(want) == 0 && noServer != ncalls {
 		o.Violate("c14.stale-or-filtered-server-selected", "the last published list has no eligible server but calls still succeed", rp)
 	}
+}
+
+// c14UserSel: a selector supplied by the user (SelectByUser): round-robin over what it was given
+type c14UserSel struct {
+	mu   sync.Mutex
+	keys []string
+	i    int
+}
+
+func (s *c14UserSel) Select(ctx context.Context, servicePath, serviceMethod string, args interface{}) string {
+	s.mu.Lock()
+	defer s.mu.Unlock()
+	if len(s.keys) == 0 {
+		return ""
+	}
+	k := s.keys[s.i%len(s.keys)]
+	s.i++
+	return k
+}
+
+func (s *c14UserSel) UpdateServer(servers map[string]string) {
+	s.mu.Lock()
+	defer s.mu.Unlock()
+	s.keys = s.keys[:0]
+	for k := range servers {
+		s.keys = append(s.keys, k)
+	}
+	sort.Strings(s.keys)
+}
+
+// c14LateSelector: clients whose selector is installed AFTER construction (SelectByUser +
+// SetSelector, Closest + ConfigGeoSelector), before or after discovery updates arrived: whatever
+// the order, once updates stop only servers of filter(last published list) may be selected.
+func c14LateSelector(o *Out, r *rand.Rand) {
+	rounds := 16
+	if thorough() {
+		rounds = 80
+	}
+	for round := 0; round < rounds; round++ {
+		group := []string{"", "g1", "g1"}[r.Intn(3)]
+		geo := r.Intn(3) == 0
+		mk := func(tag string) ([]*client.KVPair, map[string]bool) {
+			want := map[string]bool{}
+			var out []*client.KVPair
+			for i := 0; i < 3+r.Intn(4); i++ {
+				key := fmt.Sprintf("fake@%s%d-%d", tag, round, i)
+				state := []string{"", "", "state=inactive", "state=active"}[r.Intn(4)]
+				grp := []string{"", "group=g1", "group=g2", "group=g2&group=g1"}[r.Intn(4)]
+				coord := fmt.Sprintf("latitude=%d&longitude=%d", 10+r.Intn(60), 10+r.Intn(60))
+				if keep0, _, _, _ := specKeep(group, strings.Join([]string{state, grp}, "&")); !keep0 && r.Intn(2) == 0 {
+					coord = "latitude=30&longitude=30" // an ineligible server right where the client is
+				}
+				var parts []string
+				for _, p := range []string{state, grp, coord} {
+					if p != "" {
+						parts = append(parts, p)
+					}
+				}
+				meta := strings.Join(parts, "&")
+				out = append(out, &client.KVPair{Key: key, Value: meta})
+				keep, _, _, _ := specKeep(group, meta)
+				if keep {
+					want[key] = true
+				}
+			}
+			return out, want
+		}
+		first, _ := mk("a")
+		last, want := mk("b")
+		updateBefore := r.Intn(3) != 0 // does the update arrive before the selector is installed?
+		sc := &fakeScenario{perAddr: map[string]fakeOutcome{}}
+		for i := 0; i < 200; i++ {
+			sc.dials = append(sc.dials, true)
+		}
+		setScenario(sc)
+		d, _ := client.NewMultipleServersDiscovery(first)
+		opt := client.DefaultOption
+		opt.Retries = 0
+		opt.Group = group
+		var mode client.SelectMode = client.SelectByUser
+		if geo {
+			mode = client.Closest
+		}
+		xc := client.NewXClient("Svc", client.Failfast, mode, d, opt)
+		install := func() {
+			if geo {
+				xc.ConfigGeoSelector(30, 30)
+			} else {
+				xc.SetSelector(&c14UserSel{})
+			}
+		}
+		if updateBefore {
+			d.Update(last)
+			time.Sleep(30 * time.Millisecond)
+			install()
+		} else {
+			install()
+			d.Update(last)
+		}
+		// re-observe for up to 2 s until every selection lies in the expected set
+		var got map[string]int
+		bad := ""
+		for deadline := time.Now().Add(2 * time.Second); ; {
+			got = map[string]int{}
+			bad = ""
+			for i := 0; i < 24; i++ {
+				reply := &fakeReply{}
+				if err := xc.Call(context.Background(), "M", i, reply); err == nil {
+					got[reply.Addr]++
+					if !want[reply.Addr] {
+						bad = reply.Addr
+					}
+				}
+			}
+			if (bad == "" && (len(got) > 0 || len(want) == 0)) || time.Now().After(deadline) {
+				break
+			}
+			time.Sleep(20 * time.Millisecond)
+		}
+		xc.Close()
+		how := "SelectByUser + SetSelector"
+		if geo {
+			how = "Closest + ConfigGeoSelector"
+		}
+		o.Eval(fmt.Sprintf("late-selector %s group=%q update-before-install=%v n=%d", how, group, updateBefore, len(last)), true)
+		o.Count("late-selector.rounds")
+		if len(last) > len(want) {
+			o.Count("late-selector.rounds-with-ineligible-servers")
+		}
+		if updateBefore {
+			o.Count("late-selector.update-before-install")
+		}
+		o.Count(fmt.Sprintf("late-selector.selected-servers=%d", len(got)))
+		rp := map[string]any{"client": how, "client_group": group, "update_arrives_before_the_selector_is_installed": updateBefore,
+			"last_published": kvList(last), "eligible": keysOf(want), "selected": got}
+		if bad != "" {
+			o.Violate("c14.late-selector.ineligible-server-selected", fmt.Sprintf("%s: calls reach %s, which is not in filter(last published list)", how, bad), rp)
+			return
+		}
+		if len(want) > 0 && len(got) == 0 {
+			o.Violate("c14.late-selector.no-server", fmt.Sprintf("%s: no call succeeds although the last published list has eligible servers", how), rp)
+			return
+		}
+	}
+}
+
+func kvList(ps []*client.KVPair) []string {
+	var out []string
+	for _, p := range ps {
+		out = append(out, p.Key+" {"+p.Value+"}")
+	}
+	return out
+}
+
+func keysOf(m map[string]bool) []string {
+	var out []string
+	for k := range m {
+		out = append(out, k)
+	}
+	sort.Strings(out)
+	return out
 }
